@@ -89,6 +89,7 @@ class Ctx:
         self.case_viol = 0
         self.max_viol = 40
         self.margins = {}        # name -> max observed ratio value/tolerance
+        self.kf_counts = {}      # kf key ('' = untagged) -> total violations
 
     def _m(self, mon):
         return self.mon.setdefault(mon, [0, 0, 0])
@@ -106,7 +107,16 @@ class Ctx:
         m[0] += 1
         m[1] += 1
         self.case_viol += 1
-        if len(self.violations) < self.max_viol:
+        # records: untagged violations up to max_viol, tagged (candidate known
+        # findings) up to 5 per key, so that a frequent known finding can
+        # never crowd out a plain violation; totals are counted separately
+        self.kf_counts[kf or ''] = self.kf_counts.get(kf or '', 0) + 1
+        if kf:
+            room = sum(1 for v in self.violations if v['kf'] == kf) < 5
+        else:
+            room = sum(1 for v in self.violations if not v['kf']) < \
+                self.max_viol
+        if room:
             self.violations.append({'monitor': mon, 'msg': str(msg)[:2000],
                 'kf': kf, 'detail': jsonable(detail), 'case': self.case})
 
@@ -162,7 +172,8 @@ class Ctx:
         return {'pid': self.pid, 'mon': self.mon, 'skips': self.skips,
             'events': self.events, 'nontriv': sorted(self.nontriv),
             'violations': self.violations, 'samples': self.samples,
-            'cases_run': self.cases_run, 'margins': self.margins}
+            'cases_run': self.cases_run, 'margins': self.margins,
+            'kf_counts': self.kf_counts}
 
 
 CUR = None   # the Ctx interposed monitors report to
